@@ -206,8 +206,12 @@ def decoder_fields(repo: Repo, module: Module, clsname: str, method: str = "deco
     for a in fn.args.args[1:]:
         env[a.arg] = B.Sym(a.arg, repo.resolve_class(module, a.annotation) if a.annotation is not None and dotted(a.annotation) else None)
     for n in ast.walk(fn):
-        if isinstance(n, (ast.For,)) and isinstance(n.target, ast.Name):
-            env.setdefault(n.target.id, B.Sym(n.target.id))
+        # loop variables (statement loops and comprehensions, plain or tuple targets) stand for themselves
+        tg = n.target if isinstance(n, (ast.For, ast.comprehension)) else None
+        if tg is not None:
+            for x in ast.walk(tg):
+                if isinstance(x, ast.Name):
+                    env.setdefault(x.id, B.Sym(x.id))
     # statements before `body` in enclosing lists that are simple assignments (e.g. offsets) are executed best-effort
     record = None
     for s in _linear_prefix(fn, body):
@@ -386,15 +390,14 @@ def encoder_slots(repo: Repo, module: Module, clsname: str, method: str = "encod
                         packed = B.Packed(st, args)
             if packed is not None:
                 break
-        if isinstance(s, (ast.Assign, ast.AnnAssign)):
+        if isinstance(s, (ast.Assign, ast.AnnAssign, ast.AugAssign)) or (isinstance(s, ast.If) and not _has_call(s, ("pack", "pack_into")) and not any(isinstance(x, (ast.Return, ast.Raise)) for x in ast.walk(s))):
             try:
                 ev.run([s], env, module, B.TRUE)
             except B.Unsupported as ex:
                 problems.append(f"{norm_text(s)[:50]}: {ex}")
-                for t in (s.targets if isinstance(s, ast.Assign) else [s.target]):
-                    for n in ast.walk(t):
-                        if isinstance(n, ast.Name):
-                            env[n.id] = None
+                for n in ast.walk(s):
+                    if isinstance(n, ast.Name) and isinstance(n.ctx, ast.Store):
+                        env[n.id] = None
     if packed is None:
         raise AnalysisError(f"{module.relpath}: {clsname}.{method}: pack call not evaluated")
     return packed, problems
